@@ -92,7 +92,7 @@ func specialSeeds(r *vio.RNG, n int) []vconfig.VRFValue {
 	return res
 }
 
-func selectRecord(builds, seeds, xbuilds, xre int) {
+func selectRecord(builds, seeds, xbuilds, xre, rounds int) {
 	log.InitLog(log.FatalLog+1, log.Stdout)
 	rng := vio.NewRNG(vio.Seed() ^ 0xC40)
 	cfgID := 0
@@ -196,6 +196,7 @@ func selectRecord(builds, seeds, xbuilds, xre int) {
 		}
 	}
 	selectExtra(rng, cfgID, xbuilds, xre)
+	selectRounds(rng, rounds)
 }
 
 // selectExtra: larger pools (tables from the real GenesisChainConfig) and skewed hand-made tables in which one or two
@@ -287,6 +288,83 @@ func selectExtra(rng *vio.RNG, cfgID, nb, re int) {
 			same := (er1 == nil) == (er2 == nil) && eqU(p1, p2) && eqU(e1, e2) && eqU(c1, c2) && v1 == v2 && (er1 != nil || v1 == seed)
 			vio.Emit(map[string]interface{}{"op": "build", "id": cfgID, "vrf": vrfInts(seed), "err": er1 != nil, "p": u32s(p1), "e": u32s(e1), "c": u32s(c1),
 				"same": same, "re": d < re})
+		}
+	}
+}
+
+// selectRounds: the production entry point Server.updateParticipantConfig at the start of the round that follows
+// (a) an ordinary block, (b) a chain-config block (NewChainConfig in the block's consensus payload) - for pairs of old / new
+// configs that differ in N, C and membership.  Node A still has the old config in Server.config (the block-persisted event
+// has not been handled), node B has the config in force already; both see the same sealed block.
+func selectRounds(rng *vio.RNG, seedsPerRow int) {
+	if seedsPerRow <= 0 {
+		return
+	}
+	mk := func(idx []uint32, height uint32) *vconfig.ChainConfig {
+		var peers []*config.VBFTPeerInfo
+		for _, i := range idx {
+			a := detAccount(rng)
+			peers = append(peers, &config.VBFTPeerInfo{Index: i, PeerPubkey: vconfig.PubkeyID(a.PublicKey), Address: a.Address.ToBase58()})
+		}
+		conf := &config.VBFTConfig{BlockMsgDelay: 10000, HashMsgDelay: 10000, PeerHandshakeTimeout: 10, MaxBlockChangeView: 1000, Peers: peers}
+		cc, err := vconfig.GenesisChainConfig(conf, peers, height)
+		if err != nil {
+			vio.Fatal("GenesisChainConfig: %v", err)
+		}
+		return cc
+	}
+	cfgRec := func(c *vconfig.ChainConfig) map[string]interface{} {
+		if c == nil {
+			return map[string]interface{}{"n": 0, "c": 0, "tbl": []int64{}}
+		}
+		return map[string]interface{}{"n": int(c.N), "c": int(c.C), "tbl": u32s(c.PosTable)}
+	}
+	pairs := [][2][]uint32{
+		{{1, 2, 3, 4}, {2, 3, 4, 5, 6, 7, 8}},           // 4 -> 7, C 1 -> 2, peer 1 removed
+		{{1, 2, 3, 4, 5, 6, 7}, {3, 5, 7, 9}},           // 7 -> 4, C 2 -> 1
+		{{1, 2, 3, 4, 5}, {4, 5, 6, 7, 8}},              // same N and C, other members
+		{{1, 2, 3, 4, 5, 6, 7, 8, 9, 10}, {1, 2, 3, 4}}, // 10 -> 4, subset
+		{{1, 2, 3, 4}, {1, 2, 3, 4}},                    // same members, new table (other height)
+		{{2, 4, 6, 8, 10, 12, 14}, {1, 2, 3, 4, 5, 6, 7, 8, 9, 10}},
+	}
+	for _, pr := range pairs {
+		h := uint32(10 + rng.Intn(100000))
+		oldCfg, newCfg := mk(pr[0], 0), mk(pr[1], h)
+		newCfg.View = 2
+		for _, with := range []bool{false, true} {
+			for d := 0; d < seedsPerRow; d++ {
+				info := &vconfig.VbftBlockInfo{Proposer: pr[0][rng.Intn(len(pr[0]))], VrfValue: rng.Bytes(64), VrfProof: rng.Bytes(8), LastConfigBlockNum: 0}
+				inForce := oldCfg
+				if with {
+					info.NewChainConfig, info.LastConfigBlockNum, inForce = newCfg, h, newCfg
+				}
+				payload, err := json.Marshal(info)
+				if err != nil {
+					vio.Fatal("payload: %v", err)
+				}
+				var root common.Uint256
+				copy(root[:], rng.Bytes(32))
+				sealed := &types.Block{Header: &types.Header{Height: h, Timestamp: 1600000000 + h, BlockRoot: root, ConsensusPayload: payload}}
+				seed, err := vbft.VerifSelectionSeed(sealed)
+				if err != nil {
+					vio.Fatal("seed: %v", err)
+				}
+				var ra, rb uint32
+				var va, vb vconfig.VRFValue
+				var pa, ea, ca, pb, eb, cb []uint32
+				var oka, okb bool
+				pn := vio.Safe(func() {
+					ra, va, pa, ea, ca, oka, _ = vbft.VerifUpdateParticipantConfig(pr[0][0], copyChain(oldCfg), sealed)
+					rb, vb, pb, eb, cb, okb, _ = vbft.VerifUpdateParticipantConfig(inForce.Peers[len(inForce.Peers)-1].Index, copyChain(inForce), sealed)
+				})
+				if pn != "" {
+					vio.Emit(map[string]interface{}{"op": "panic", "id": -2, "what": "round", "vrf": vrfInts(seed), "panic": pn})
+					continue
+				}
+				same := oka == okb && eqU(pa, pb) && eqU(ea, eb) && eqU(ca, cb) && va == vb && ra == rb && (!oka || (va == seed && ra == h+1))
+				vio.Emit(map[string]interface{}{"op": "round", "id": -2, "vrf": vrfInts(seed), "cur": cfgRec(oldCfg), "new": cfgRec(info.NewChainConfig),
+					"err": !oka, "p": u32s(pa), "e": u32s(ea), "c": u32s(ca), "same": same})
+			}
 		}
 	}
 }
